@@ -99,7 +99,7 @@ func c01Shape(t *stree.Tree[int]) (string, int) {
 
 func (r *c01) obs(res string, reg, b int) string {
 	t := r.regs[reg]
-	if t == nil {
+	if t == nil || blindObs {
 		return "r=" + res
 	}
 	var sb strings.Builder
@@ -281,8 +281,10 @@ func (r *c01) Exec(op []string) string {
 	case "add", "replace":
 		k := atoi(op[2])
 		old := r.shape[reg]
-		if v, had := t.Get(k); had && v != k {
-			r.st.Note(op[0] + "-equivalent-distinct-key")
+		if !blindObs {
+			if v, had := t.Get(k); had && v != k {
+				r.st.Note(op[0] + "-equivalent-distinct-key")
+			}
 		}
 		var ok bool
 		if op[0] == "add" {
@@ -1009,7 +1011,7 @@ func genC02Limit(g *G) {
 
 func init() {
 	mk := func(st *Stats) Runner { return &c01{st: st} }
-	register(&Stream{Name: "C01", Gen: genC01, New: mk})
-	register(&Stream{Name: "C02", Gen: genC01, New: mk})
+	register(&Stream{Name: "C01", Gen: genC01, New: mk, Blind: true})
+	register(&Stream{Name: "C02", Gen: genC01, New: mk, Blind: true})
 	register(&Stream{Name: "C02.limit", Gen: genC02Limit, New: func(st *Stats) Runner { return &c02limit{st: st} }})
 }
